@@ -241,3 +241,16 @@ def core_forward_first(t, n):
 def n_core_forward_first(t, n):
     a = len(ref.DFAS[t].alphabet)
     return sum(min(k, 4) - 1 for k in leaf_counts(t).values() if k >= 2) * sum(a ** m for m in range(n + 1))
+
+
+def core_long(t, length=300, words=2):
+    """long runs: a pumped valid word of about `length` children (a shortest cycle of the reference automaton repeated), then
+    a replacement, a removal and a predicate-form replacement at LATE positions (>= 257), each followed by a serialisation"""
+    d = ref.DFAS[t]
+    for w in d.pumped_words((length,))[:words]:
+        if len(w) < 262:
+            continue
+        adds = [['add', s, None] for s in w]
+        n = len(w)
+        yield adds + [['rep', n - 5, w[n - 5]], ['str', False], ['rm', n - 20], ['str', False],
+                      ['repf', n - 30, w[n - 30]], ['repself', n - 12], ['rm', 258], ['str', False]]
